@@ -101,7 +101,10 @@ func Shrink(c Case) []Case {
 }
 
 // Judge is the C02 oracle for one boundary.
-func Judge(p *prog.Program, ops []prog.Op, b *crash.Boundary, fs *fsmodel.FS, work string) (fp, msg string) {
+func Judge(p *prog.Program, ops []prog.Op, b *crash.Boundary, fs *fsmodel.FS, work string, active bool) (fp, msg string) {
+	if !active {
+		return "", ""
+	}
 	dir, err := crash.Materialize(fs, work)
 	if err != nil {
 		panic(err)
@@ -148,7 +151,12 @@ func Judge(p *prog.Program, ops []prog.Op, b *crash.Boundary, fs *fsmodel.FS, wo
 }
 
 // Execute runs (or loads) the trace of c and judges every boundary with judge.
-func Execute(id string, c Case, x *h.Ctx, judge func(p *prog.Program, ops []prog.Op, b *crash.Boundary, fs *fsmodel.FS, work string) (string, string)) *h.Violation {
+func Execute(id string, c Case, x *h.Ctx, judge func(p *prog.Program, ops []prog.Op, b *crash.Boundary, fs *fsmodel.FS, work string, active bool) (string, string)) *h.Violation {
+	return ExecuteOpts(id, c, x, judge, 1<<20)
+}
+
+// ExecuteOpts is Execute with an explicit strace string limit (C13 logs records of hundreds of KiB).
+func ExecuteOpts(id string, c Case, x *h.Ctx, judge func(p *prog.Program, ops []prog.Op, b *crash.Boundary, fs *fsmodel.FS, work string, active bool) (string, string), maxStr int) *h.Violation {
 	work, done := h.Scratch(strings.ToLower(id))
 	defer done()
 	p := &c.Program
@@ -162,7 +170,7 @@ func Execute(id string, c Case, x *h.Ctx, judge func(p *prog.Program, ops []prog
 			panic(fmt.Sprintf("cannot load trace %s: %v", c.TraceFile, err))
 		}
 	} else {
-		tr, err = crash.Run(p, work, 1<<20, nil)
+		tr, err = crash.Run(p, work, maxStr, nil)
 		if err != nil {
 			x.Discard("trace-failed: " + firstLine(err.Error()))
 			return nil
@@ -172,21 +180,17 @@ func Execute(id string, c Case, x *h.Ctx, judge func(p *prog.Program, ops []prog
 			return h.V("crash/child-died", "the traced child exited with status %d on a valid workload: %.1500s", tr.Exit, tr.Stderr)
 		}
 	}
-	only := -1
-	if c.Only > 0 {
-		only = c.Only
-	}
 	var viol *h.Violation
 	windows := map[string]int{}
-	n, werr := tr.Walk(nil, selfCheck, only, func(b *crash.Boundary, fs *fsmodel.FS) error {
-		win := crash.Window(b, ops)
-		nt := win != "between-ops" && win != "wal-append"
-		x.Sub(fmt.Sprintf("b%d", b.Seq), nt)
-		windows[win]++
-		if viol != nil {
-			return nil
+	n, werr := tr.Walk(nil, selfCheck, -1, func(b *crash.Boundary, fs *fsmodel.FS) error {
+		active := viol == nil && (c.Only <= 0 || b.Seq == c.Only)
+		if active {
+			win := crash.Window(b, ops)
+			nt := win != "between-ops" && win != "wal-append"
+			x.Sub(fmt.Sprintf("b%d", b.Seq), nt)
+			windows[win]++
 		}
-		if fp, msg := judge(p, ops, b, fs, work); fp != "" {
+		if fp, msg := judge(p, ops, b, fs, work, active); fp != "" && active {
 			viol = &h.Violation{Fingerprint: fp, Msg: msg}
 			if c.TraceFile == "" {
 				saved := crash.SaveTrace(id, tr)
